@@ -137,14 +137,16 @@ class C13(Prop):
             'case = at least 2 elements and at least one element takes the extrapolation branch and one the '
             'converged branch (abserr pattern), distinct by inputs.')
     assumptions = ('python fractions.Fraction arithmetic is exact',
-                   'T = eps*[max|e_i|(1+kappa) + |1/sss| + |S|], kappa = (d1^2+d2^2)/(d2-d1)^2 (first-order '
-                   'conditioning of the three-term Shanks formula); constants >= 10x above the worst ratio seen',
+                   'T = eps*[max|e_i|(1+kappa) + |1/sss| + |S|], kappa = (d1^2+d2^2)/(d2-d1)^2 (conditioning of '
+                   'the three-term Shanks formula) maximised over the rounding box of the inputs: '
+                   'kappa = ((|d1|+p)^2+(|d2|+p)^2)/(|d2-d1|-2p)^2, p = 2u max|e_i|; triples with |d2-d1| <= 4p are '
+                   'skipped and counted; constants >= 10x above the worst ratio seen',
                    'clause guard-bound (|result| <= 2e4 max|e_i|) is the reading of "never produces garbage" '
                    'implied by the documented |sss e1| <= 1e-4 guard: the correction is only applied when it is '
                    'smaller than 1e4 |e1|')
     constants = {'C_RESULT': C_RESULT, 'C_INPUT': C_INPUT, 'C_HONEST': C_HONEST, 'NONTRIV': NONTRIV,
                  'GUARD_BOUND': GUARD_BOUND, 'MAG': MAG, 'GUARD_WIDEN': 4}
-    examples = {'quick': 3500, 'thorough': 120000}
+    examples = {'quick': 3500, 'thorough': 40000}
 
     def strategy(self, tier):
         return st.one_of(geo_case(), geo_case(), total_case())
@@ -170,7 +172,9 @@ class C13(Prop):
             ctx.skip('geo: eps-convergence guard %s' % an['eps_guard'])
         if an['irregular_guard'] != 'clear':
             ctx.skip('geo: irregular-behaviour guard %s' % an['irregular_guard'])
-        S, T, fL = an['S'], an['T'], Fraction(L)
+        if not an['resolved']:
+            ctx.skip('geo: |d2 - d1| <= 8u max|e_i| (curvature not resolved by the rounded terms)')
+        S, T, fL = an['S'], an['T_box'], Fraction(L)
         fr = Fraction(r)
         summ = dict(L=L, a=a, q=q, k=k)
         r1 = float(abs(fr - S) / T)
@@ -191,7 +195,7 @@ class C13(Prop):
         aq = abs(q)
         ctx.count('geo |q| %s' % ('<0.5' if aq < 0.5 else '<1' if aq < 1 else '<2' if aq < 2 else '>=2'))
         ctx.count('geo q%s0' % ('<' if q < 0 else '>'))
-        kap = float(an['kappa'])
+        kap = float(an['kappa_box'])
         ctx.count('geo kappa %s' % ('<2' if kap < 2 else '<100' if kap < 100 else '>=100'))
         if abs(an['corr']) > NONTRIV * T:
             ctx.nontriv(dict(L=L, a=a, q=q, k=k))
